@@ -240,6 +240,32 @@ class Check:
         self.evaluations += len(evs)
         return res, rejected
 
+    def validate_events(self, module, cfg, trace_path, timeout=900, name=None, heap_gb=4, workers=1, extra_files=None):
+        """Pure-judgement traces: every line is judged on its own (Init: l \\in 1..N; one step prints
+        <<"EV", l, "ok"|"bad">>). Returns (res, rejected) with rejected = [{line, event}]."""
+        lines = open(trace_path).read().splitlines()
+        lint_trace(lines, trace_path)
+        evs = [json.loads(l) for l in lines]
+        body = [l for l, e in zip(lines, evs) if e.get("k") != "End"]
+        evs = [e for e in evs if e.get("k") != "End"]
+        if not evs:
+            raise Infra("trace %s has no events" % trace_path)
+        tp = trace_path + ".tlc"
+        open(tp, "w").write("\n".join(body) + "\n")
+        files = {"trace.ndjson": tp}
+        files.update(extra_files or {})
+        res = self.tlc(module, cfg, files=files, workers=workers, timeout=timeout, name=name, heap_gb=heap_gb)
+        if res.error or res.rc != 0:
+            raise Infra("TLC error during event validation of %s (see %s/tlc.out):\n%s" % (module, res.dir, tail_errors(res.out)))
+        verdict = {t[1]: t[2] for t in res.tuples("EV")}
+        if sorted(verdict) != list(range(1, len(evs) + 1)):
+            raise Infra("verdicts incomplete for %s: %d of %d" % (module, len(verdict), len(evs)))
+        rejected = [{"line": i, "event": evs[i - 1]} for i in sorted(verdict) if verdict[i] != "ok"]
+        self.traces_ok += len(evs) - len(rejected)
+        self.evaluations += len(evs)
+        res.notes = res.tuples("NOTE")
+        return res, rejected
+
     # ------------------------------------------------------------ verdict logic
     def report(self, key, what, replay_obj):
         """Record a violation observed on the real code under `key`; known findings are matched by key."""
